@@ -56,8 +56,8 @@ func init() {
 				n = 90
 			}
 			return fw.Meta{N: n, Level: "fault_enumeration", Chunk: 1, CaseTimeoutS: 900, MinNT: 3, Workers: 3,
-				Rule:        "one case = one traced session (strace -f) of 2..3 open/operate/close rounds, 40..150 Put/Delete each on 8 keys, memstore {100,150,1024} bytes, write buffers {32,64,256,4MiB}, compactor ticking at 1..5 ms with thresholds 0..2, occasional forced rotations; every 6th session instead writes a few incompressible values of 4.3..6 MiB (larger than the 4 MiB WAL buffer, so one synchronous append is several write calls and a kill can cut it); INV/ACK markers of every operation are system calls in the same log. The log is replayed into an in-memory file system (close at entry, everything else at completion; the final replayed image must equal the real directory); after EVERY mutating call (create, write, truncate, rename, unlink, mkdir, rmdir) of any thread the state is one crash image; runs of unlinks in one directory are additionally permuted (other directory listing orders). Every distinct (image, acknowledged state) is materialised and opened by a fresh process: Open must succeed and every key must read model(acked) or model(acked + the one operation in flight); every 4th image is additionally continued (put, delete, Close, Open) and read again, which must match the model with the same continuation. evaluations = distinct images recovered; non-trivial = session with >=50 distinct images; the evidence lists images per phase (open/close/flush/compaction/operations)",
-				MinObs:      map[string]int64{"sessions_traced": 3, "distinct_images_recovered": 1500, "images_in_phase_flush": 100, "images_in_phase_compaction": 30, "images_in_phase_open": 20, "images_in_phase_close": 20, "sessions_with_values_larger_than_the_wal_buffer": 1, "images_with_cut_wal_record": 1},
+				Rule:        "one case = one traced session (strace -f) of 2..3 open/operate/close rounds, 40..150 Put/Delete each on 8 keys, memstore {100,150,1024} bytes, write buffers {32,64,256,4MiB}, compactor ticking at 1..5 ms with thresholds 0..2, occasional forced rotations; every 6th session instead writes a few incompressible values of 4.3..6 MiB (larger than the 4 MiB WAL buffer, so one synchronous append is several write calls and a kill can cut it); INV/ACK markers of every operation are system calls in the same log. The log is replayed into an in-memory file system (close at entry, everything else at completion; the final replayed image must equal the real directory); after EVERY mutating call (create, write, truncate, rename, unlink, mkdir, rmdir) of any thread the state is one crash image; runs of unlinks in one directory are additionally permuted (other directory listing orders). Every distinct (image, acknowledged state) is materialised and opened by a fresh process: Open must succeed and every key must read model(acked) or model(acked + the one operation in flight); every 4th image is additionally continued (put, delete, Close, Open) and read again, which must match the model with the same continuation. evaluations = distinct images recovered; non-trivial = session with >=50 distinct images; the evidence lists images per phase (open/close/flush/compaction/operations) One put in three is handed over in ONE reused 96-byte caller buffer per key (rewritten only while no flush is running and after the call was announced in the log).",
+				MinObs:      map[string]int64{"puts_through_a_reused_caller_buffer": 5, "sessions_traced": 3, "distinct_images_recovered": 1500, "images_in_phase_flush": 100, "images_in_phase_compaction": 30, "images_in_phase_open": 20, "images_in_phase_close": 20, "sessions_with_values_larger_than_the_wal_buffer": 1, "images_with_cut_wal_record": 1},
 				Assumptions: []string{"kill -9 model of the statement: every completed system call is retained, a single write is not torn, no power loss", "schedules are those that occurred in the traced sessions; other directory listing orders are emulated for unlink runs only"},
 			}
 		},
